@@ -107,15 +107,18 @@ def gen_cases(tier, rng):
                 for form in ("preinc", "postinc", "predec", "postdec"):
                     cases.append("arith%s %s %s %d int 1" % (cfg, pt, form, p))
                 # tainted / tainted_volatile operands
-                for wrapk in ("tainted", "tvol"):
+                # (wcell: a tainted_volatile operand whose cell the sandbox rewrites, to n + 3, before any second read of it:
+                #  the bounds check and the address must come from ONE fetch — read-notification hook of /repo)
+                for wrapk in ("tainted", "tvol", "wcell"):
                     for k in ("int", "uint", "long", "ulong"):
                         for n in (0, 1, -1, to_end, to_end + 1, -idx - 1, 1 << 31, (1 << 32) + 1, 1 << 62):
-                            if fits(k, n):
+                            # (the four kinds are 32 bits wide in the guest: the rewritten value n + 3 must be representable there)
+                            if fits(k, n) and (wrapk != "wcell" or fits("int" if k in ("int", "long") else "uint", n + 3)):
                                 for form in ("add", "sub", "index", "radd"):
                                     cases.append("arith%s %s %s %d %s %d %s" % (cfg, pt, form, p, k, n, wrapk))
     if tier == "quick" and len(cases) > 60000:
-        keep = [c for c in cases if c.startswith("stride") or "pcell" in c]
-        rest = [c for c in cases if not (c.startswith("stride") or "pcell" in c)]
+        keep = [c for c in cases if c.startswith("stride") or "pcell" in c or "wcell" in c]
+        rest = [c for c in cases if not (c.startswith("stride") or "pcell" in c or "wcell" in c)]
         rng.shuffle(rest)
         cases = keep + rest[:max(0, 60000 - len(keep))]
     return cases
